@@ -277,6 +277,14 @@ def run_cat_case(case):
             if not same(tr.values[:, 3 + j - 1].tolist(), wantj):
                 out.append(('catalogue:snapshot-pass', wantj, tr.values[:, 3 + j - 1].tolist(), 'snapshot %d differs from the values after pass %d' % (j, j)))
                 break
+    # a recorded trace is a record: later changes to the model (a new variable) must not rewrite it
+    recorded = [(list(tr.names), list(tr.index), tr.values.copy()) for tr in a.trace]
+    a.add_variable('Zlater', 0.0)
+    for pos, tr in enumerate(a.trace):
+        n0, i0, v0 = recorded[pos]
+        if list(tr.names) != n0 or list(tr.index) != i0 or not np.array_equal(tr.values, v0, equal_nan=True):
+            out.append(('catalogue:trace-rewritten-by-add_variable', n0, list(tr.names), 'a recorded trace changed when a variable was added to the model afterwards'))
+            break
     return out
 
 
